@@ -45,16 +45,15 @@ extern void mpt_queue_align(MPT_STRUCT(queue) *queue, size_t pos)
 	}
 	
 	/* split block into upper and lower part */
-	mpt_memrev(addr+queue->off, pv = pos-queue->off, queue->len);
-	
-	/* move lower part to buffer data start */
-	if (queue->off)
-		(void) memmove(addr, addr+queue->off, pv);
-	
-	pos = queue->max - (queue->len - pv);
-	
-	if (pos != (queue->off + pv))
-		(void) memmove(addr+pos, addr+queue->off+pv, queue->len-pv);
+	if (queue->off) {
+		(void) memmove(addr, addr+queue->off, queue->len);
+	}
+	pv = queue->max - pos;
+	mpt_memrev(addr, pv, queue->len);
+	if (pv) {
+		(void) memmove(addr+pos, addr+queue->len-pv, pv);
+	}
+	queue->off = pv ? pos : 0;
 	
 	return;
 }
